@@ -52,6 +52,30 @@ CLAIMED = {
     note="Trusted: Coq kernel, model Model/Noise.v, harness, numpy loop oracle. The `+` (scatter) view of Banded/Diagonal is covered by exhaustive correspondence, not yet by a theorem.",
     technique="Coq proof (shift-matrix powers) + exhaustive exact correspondence over (N,J)",
     ref="DESIGN.md section 6, C11"),
+ "C09": dict(
+    text="Machine-checked theorems over Coq's reals about definitions REGENERATED from the source on every run (translator): every stationary profile "
+         "(any distance, any dimension), L1/L2 distances incl. the zero-distance safe square root, constant/dot-product/polynomial, and the quasiseparable "
+         "family as functions of |dt| (Exp, Matern-3/2, -5/2, Cosine, Celerite, SHO in its three regimes outside the allclose band), equality with the dense "
+         "namesakes, symmetry, diagonal evaluation. The translated expression trees are validated numerically against the real methods on every run, and "
+         "the implementation is cross-checked against closed forms typed from the docstrings.",
+    note="Trusted: Coq kernel + stdlib real-number axioms (sig_forall_dec, sig_not_dec, functional_extensionality_dep, classic via Rle_dec etc.), the translator's printer, "
+         "hand-typed specifications. PARTIAL: positive semi-definiteness is not proved (eigenvalue support only); see DESIGN.md.",
+    technique="Coq proof (field/ring over R) about source-regenerated definitions + translation validation",
+    ref="DESIGN.md section 6, C09"),
+ "C18": dict(
+    text="Machine-checked theorems about the regenerated design/stationary-covariance/observation/transition definitions of Exp, Matern-3/2, -5/2, Cosine, "
+         "Celerite and SHO (three regimes): A(t,t)=I, A(t2,t3)A(t1,t2)=A(t1,t3) for all times, A solves A'=F^T A with A(0)=I (Coquelicot is_derive), "
+         "value = h^T P A h, P symmetric PSD, FP+PF^T NSD, for all positive parameters. Sums/products/scalings and CARMA: scipy expm / eigenvalue oracle.",
+    note="Trusted: as C09 plus Coquelicot. PARTIAL: uniqueness of linear ODE solutions (so 'equals expm') not formalised; combinator laws (block diagonal / Kronecker) by oracle so far.",
+    technique="Coq proof (exp/trig addition laws, auto_derive) about source-regenerated definitions + scipy oracle",
+    ref="DESIGN.md section 6, C18"),
+ "C19": dict(
+    text="Machine-checked theorems about the regenerated Transform/Linear/Cholesky/Subspace definitions with the base kernel universally quantified: value = base "
+         "kernel at transformed coordinates for scalar/vector/matrix scales and factors, integer and sequence axes, nesting and algebra; Linear(1/ell) = length scale ell; "
+         "scalar Cholesky = Linear with the inverse. Mahalanobis form, Linear(L^-1) equivalence, from_parameters layout and use inside GaussianProcess by numpy oracle.",
+    note="Trusted: as C09; solve_triangular is an oracle parameter. Matrix Mahalanobis identity and from_parameters layout not yet theorems.",
+    technique="Coq proof about source-regenerated definitions + numpy oracle",
+    ref="DESIGN.md section 6, C19"),
 }
 NOT_YET = {}
 
